@@ -1035,3 +1035,48 @@ Example ex2_sorts : pre 6 ex2 /\
   winsort 6 ex2 = Some [Pl (B63 - 2) 0; Pl (B63 - 1) 3; Pl (B63 + 1) 4; Pl (B63 + 3) 1; Rs (B63 + 4) 2; Re (B63 + 4) 5]
   /\ loader_accepts ex2 = false.
 Proof. repeat split; vm_compute; reflexivity. Qed.
+
+(* ------------------------------------------------------------------------ *)
+(* a larger look-back window never hurts: the precondition is monotone in n   *)
+(* and the result does not depend on n                                        *)
+(* ------------------------------------------------------------------------ *)
+
+Lemma lookback_ok_mono n m before body :
+  (n <= m)%nat -> lookback_ok n before body = true -> lookback_ok m before body = true.
+Proof.
+  unfold lookback_ok. intros Hnm H. apply Nat.leb_le in H. apply Nat.leb_le. lia.
+Qed.
+
+Lemma pstep_mono n m p e p' :
+  (n <= m)%nat -> pstep n p e = Some p' -> pstep m p e = Some p'.
+Proof.
+  intros Hnm. unfold pstep.
+  destruct (negb (clk_u64 e)); [discriminate|].
+  destruct (p_mode p) as [|s rb]; [exact (fun H => H)|].
+  destruct (ends_unsorted_region e); [|exact (fun H => H)].
+  destruct rb as [|b rb]; [exact (fun H => H)|].
+  destruct (lookback_ok n (p_before p ++ [s]) (rev (b :: rb))) eqn:L.
+  - rewrite (lookback_ok_mono n m _ _ Hnm L). exact (fun H => H).
+  - rewrite andb_false_r. discriminate.
+Qed.
+
+Lemma prun_mono n m l : forall p p',
+  (n <= m)%nat -> prun n p l = Some p' -> prun m p l = Some p'.
+Proof.
+  induction l as [|e l IH]; intros p p' Hnm; cbn [prun]; [exact (fun H => H)|].
+  destruct (pstep n p e) as [p1|] eqn:E; [|discriminate].
+  rewrite (pstep_mono n m p e p1 Hnm E). apply IH. exact Hnm.
+Qed.
+
+Lemma pre_mono n m evs : (n <= m)%nat -> pre n evs -> pre m evs.
+Proof.
+  unfold pre, preb. intros Hnm. destruct (prun n pinit evs) as [p|] eqn:E; [|discriminate].
+  rewrite (prun_mono n m evs pinit p Hnm E). exact (fun H => H).
+Qed.
+
+Theorem winsort_larger_window n m evs :
+  (n <= m)%nat -> pre n evs -> winsort m evs = winsort n evs /\ winsort m evs = Some (ssort evs).
+Proof.
+  intros Hnm Hp. rewrite (winsort_is_ssort n evs Hp), (winsort_is_ssort m evs (pre_mono n m evs Hnm Hp)).
+  split; reflexivity.
+Qed.
